@@ -54,6 +54,34 @@ type c08ctx struct {
 	w      *world
 	prefix []letter
 	specs  []rspec
+	// the empty-block twin of this pre-state is the same for every transaction and gas limit (one job = one goroutine)
+	yDump  map[string][]byte
+	yNonce map[staking.Address]uint64
+}
+
+// emptyTwin returns the state dump after [prefix, empty block] and the signer's nonce there.
+func (c *c08ctx) emptyTwin(signer *txT) (map[string][]byte, uint64, string) {
+	if c.yDump == nil {
+		d, _, _, _, what := c.after(letter{Name: "empty"}, nil, nil)
+		if what != "" {
+			return nil, 0, what
+		}
+		c.yDump, c.yNonce = d, map[staking.Address]uint64{}
+	}
+	if signer == nil {
+		return c.yDump, 0, ""
+	}
+	a := chain.Addr(signer.Signer)
+	n, ok := c.yNonce[a]
+	if !ok {
+		_, _, _, nn, what := c.after(letter{Name: "empty"}, signer, nil)
+		if what != "" {
+			return nil, 0, what
+		}
+		n = nn
+		c.yNonce[a] = n
+	}
+	return c.yDump, n, ""
 }
 
 // after runs the prefix and then one block on a fresh single replica and
@@ -400,7 +428,7 @@ func c08One(c *c08ctx, t txT, gas uint64, menu []txT, mode string) string {
 
 // c08OneG also returns the gas that the transaction under test reported as used.
 func c08OneG(c *c08ctx, t txT, gas uint64, menu []txT, mode string) (string, int64) {
-	yDump, _, _, _, what := c.after(letter{Name: "empty"}, nil, nil)
+	yDump, _, what := c.emptyTwin(nil)
 	if what != "" {
 		return what, 0
 	}
@@ -431,7 +459,7 @@ func c08OneG(c *c08ctx, t txT, gas uint64, menu []txT, mode string) (string, int
 	if code == 0 {
 		return "", gasX
 	}
-	_, _, _, nonceY, _ := c.after(letter{Name: "empty"}, &tx, nil)
+	_, nonceY, _ := c.emptyTwin(&tx)
 	if nonceX == nonceY {
 		if d := dumpDiff(xDump, yDump); d != "" {
 			return fmt.Sprintf("failed (code %d) without advancing the nonce, yet the state differs from the state without it:%s", code, d), gasX
